@@ -57,34 +57,35 @@ end Cnfgen.Fam
 namespace Cnfgen.Fam
 open Cnfgen
 
-/-- pigeon `u` rests at place `u`, which is active and sends it to hole `u` -/
-def rphpWitness (m r n : Nat) : Assign := fun x =>
-  if x < 1 + m * r then (UMap.mk 1 m r).assignOf (fun u v => u == v) x
-  else if x < 1 + m * r + r * n then
-    (UMap.mk (1 + m * r) r n).assignOf (fun v w => v == w && decide (v ≤ m)) x
-  else decide (x - (m * r + r * n) ≤ m)
+/-- the assignment describing resting relation `P`, flying relation `Q` and active set `A` -/
+def rphpAssign (m r n : Nat) (P Q : Nat → Nat → Bool) (A : Nat → Bool) : Assign := fun x =>
+  if x < 1 + m * r then (UMap.mk 1 m r).assignOf P x
+  else if x < 1 + m * r + r * n then (UMap.mk (1 + m * r) r n).assignOf Q x
+  else A (x - (m * r + r * n))
 
-theorem rphpWitness_p (m r n : Nat) {u v : Nat} (hu1 : 1 ≤ u) (hu : u ≤ m) (hv1 : 1 ≤ v) (hv : v ≤ r) :
-    rphpWitness m r n (Vars.mapId 1 r u v) = (u == v) := by
+theorem rphpAssign_p (m r n : Nat) (P Q : Nat → Nat → Bool) (A : Nat → Bool) {u v : Nat}
+    (hu1 : 1 ≤ u) (hu : u ≤ m) (hv1 : 1 ≤ v) (hv : v ≤ r) :
+    rphpAssign m r n P Q A (Vars.mapId 1 r u v) = P u v := by
   have hlt := (UMap.mk 1 m r).var_lt hu1 hu hv1 hv
-  have := (UMap.mk 1 m r).assignOf_var (fun u v => u == v) hu1 hv1 hv
+  have := (UMap.mk 1 m r).assignOf_var P hu1 hv1 hv
   simp only [UMap.var] at hlt this
-  simp only [rphpWitness, if_pos hlt, this]
+  simp only [rphpAssign, if_pos hlt, this]
 
-theorem rphpWitness_q (m r n : Nat) {v w : Nat} (hv1 : 1 ≤ v) (hv : v ≤ r) (hw1 : 1 ≤ w) (hw : w ≤ n) :
-    rphpWitness m r n (Vars.mapId (1 + m * r) n v w) = (v == w && decide (v ≤ m)) := by
+theorem rphpAssign_q (m r n : Nat) (P Q : Nat → Nat → Bool) (A : Nat → Bool) {v w : Nat}
+    (hv1 : 1 ≤ v) (hv : v ≤ r) (hw1 : 1 ≤ w) (hw : w ≤ n) :
+    rphpAssign m r n P Q A (Vars.mapId (1 + m * r) n v w) = Q v w := by
   have hlt := (UMap.mk (1 + m * r) r n).var_lt hv1 hv hw1 hw
   have hge := (UMap.mk (1 + m * r) r n).var_ge v w
-  have := (UMap.mk (1 + m * r) r n).assignOf_var (fun v w => v == w && decide (v ≤ m)) hv1 hw1 hw
+  have := (UMap.mk (1 + m * r) r n).assignOf_var Q hv1 hw1 hw
   simp only [UMap.var] at hlt hge this
   have h1 : ¬ Vars.mapId (1 + m * r) n v w < 1 + m * r := by omega
-  simp only [rphpWitness, if_neg h1, if_pos hlt, this]
+  simp only [rphpAssign, if_neg h1, if_pos hlt, this]
 
-theorem rphpWitness_r (m r n : Nat) {v : Nat} (hv1 : 1 ≤ v) :
-    rphpWitness m r n (1 + m * r + r * n + (v - 1)) = decide (v ≤ m) := by
+theorem rphpAssign_r (m r n : Nat) (P Q : Nat → Nat → Bool) (A : Nat → Bool) {v : Nat} (hv1 : 1 ≤ v) :
+    rphpAssign m r n P Q A (1 + m * r + r * n + (v - 1)) = A v := by
   have h1 : ¬ 1 + m * r + r * n + (v - 1) < 1 + m * r := by omega
   have h2 : ¬ 1 + m * r + r * n + (v - 1) < 1 + m * r + r * n := by omega
   have h3 : 1 + m * r + r * n + (v - 1) - (m * r + r * n) = v := by omega
-  simp only [rphpWitness, if_neg h1, if_neg h2, h3]
+  simp only [rphpAssign, if_neg h1, if_neg h2, h3]
 
 end Cnfgen.Fam
